@@ -446,3 +446,16 @@ Proof. exact inner_tab_drops_names. Qed.
 Example ex_nolint_no_comments : forall cl,
   analyze_nl no_comments cl = Some (analyze_file cl, match analyze_file cl with [] => false | _ => true end).
 Proof. exact analyze_nl_no_comments. Qed.
+
+(* C18_nolint_sound_additive / C18_nolint_report_exact: an additive statement stays clean under a directive naming
+   other checks; a DROP TABLE next to it keeps its DS102 unless its own rule list silences it *)
+Example ex_nolint_additive :
+  let T := mkTab LintNolintRefute.n_t cols_t [] in
+  let U := mkTab [117]%N cols_t [] in
+  analyze_nl (mkNL [] [(0%N, [w_plain])]) [mkSC 0 [AddTableC T]] = Some ([], false)
+  /\ analyze_nl (mkNL [] [(0%N, [w_bare])]) [mkSC 0 [AddTableC T]; mkSC 40 [DropTableC U]]
+     = Some ([mkDiag DS102 40 [[117]%N]], true)
+  /\ analyze_nl (mkNL [] [(40%N, [b "-- atlas:nolint DS102" ++ nl])]) [mkSC 0 [AddTableC T]; mkSC 40 [DropTableC U]]
+     = Some ([], false)
+  /\ analyze_nl (mkNL [b "-- atlas:nolint"] []) [mkSC 0 [AddTableC T]; mkSC 40 [DropTableC U]] = None.
+Proof. vm_compute. repeat split; reflexivity. Qed.
